@@ -368,3 +368,39 @@ Proof.
   unfold hilbert_partition, hilbert_partition_g. destruct (maxo <? order)%N; [reflexivity|].
   destruct p0; [reflexivity|]. rewrite weighted_quantiles_is_g. reflexivity.
 Qed.
+
+(* ---- fuel is only a bound: a run that returns with some fuel returns the same
+   result with any larger amount (so "Ok with fuel F" on a case means that the
+   unbounded `while` loop terminates on it with that result) ---- *)
+Lemma wq_loop_fuel_mono tol n pts ws : forall fuel fuel' ss todo r,
+  wq_loop tol fuel n pts ws ss todo = Ok r -> fuel <= fuel' -> wq_loop tol fuel' n pts ws ss todo = Ok r.
+Proof.
+  induction fuel as [|f IH]; intros fuel' ss todo r H Hle; destruct todo as [|t]; cbn [wq_loop] in H.
+  - destruct fuel'; exact H.
+  - discriminate.
+  - destruct fuel'; exact H.
+  - destruct fuel' as [|f']; [lia|]. cbn [wq_loop].
+    destruct (wq_round tol n pts ws ss) as [[ss' c]| | |]; cbn [bind] in *; try discriminate.
+    apply IH; [exact H|lia].
+Qed.
+
+Theorem weighted_quantiles_fuel_mono tol fuel fuel' pts ws n r :
+  weighted_quantiles tol fuel pts ws n = Ok r -> fuel <= fuel' -> weighted_quantiles tol fuel' pts ws n = Ok r.
+Proof.
+  unfold weighted_quantiles. destruct n; [discriminate|].
+  destruct (min_list pts); [|discriminate]. destruct (max_list pts); [|discriminate].
+  intros H Hle.
+  destruct (wq_loop tol fuel (S n) pts ws (init_splits n0 n1 (S n)) (length (init_splits n0 n1 (S n)))) as [ss'| | |] eqn:E;
+    cbn [bind] in H; try discriminate.
+  rewrite (wq_loop_fuel_mono _ _ _ _ _ _ _ _ _ E Hle). exact H.
+Qed.
+
+Theorem hilbert_partition_fuel_mono tol maxo order fuel fuel' idx ws k p0 r :
+  hilbert_partition tol maxo order fuel idx ws k p0 = Ok r -> fuel <= fuel' ->
+  hilbert_partition tol maxo order fuel' idx ws k p0 = Ok r.
+Proof.
+  unfold hilbert_partition. destruct (maxo <? order)%N; [discriminate|]. destruct p0; [auto|].
+  intros H Hle.
+  destruct (weighted_quantiles tol fuel idx ws k) as [splits| | |] eqn:E; cbn [bind] in H; try discriminate.
+  rewrite (weighted_quantiles_fuel_mono _ _ _ _ _ _ _ E Hle). exact H.
+Qed.
